@@ -911,10 +911,13 @@ func (tx *Transaction) ProcessRequestHeaders() *types.Interruption {
 
 func setAndReturnBodyLimitInterruption(tx *Transaction, status int) (*types.Interruption, int, error) {
 	tx.debugLogger.Warn().Msg("Disrupting transaction with body size above the configured limit (Action Reject)")
-	tx.interruption = &types.Interruption{
+	// Through Interrupt, so that the engine mode is honoured: a transaction
+	// switched to DetectionOnly by ctl:ruleEngine only remembers the would-be
+	// rejection (NewWAF already forces ProcessPartial for a configured DetectionOnly).
+	tx.Interrupt(&types.Interruption{
 		Status: status,
 		Action: "deny",
-	}
+	})
 	return tx.interruption, 0, nil
 }
 
